@@ -12,21 +12,22 @@ Section Lists.
   Variable n0 cur0 : nat.
   Variable FV : name -> option val.
   Variable resl : list name.
+  Variable mutl : list name.
   Notation prot := (prot0 n0 resl).
   Notation ext_at := (ext_at n0 resl).
   Notation kext := (kext n0 resl).
-  Notation vrel := (vrel n0 cur0 FV resl).
-  Notation vrels := (vrels n0 cur0 FV resl).
-  Notation srel := (srel n0 cur0 FV resl).
-  Notation agree := (agree n0 cur0 FV resl).
-  Notation post := (post n0 cur0 FV resl).
-  Notation fzr := (fzr FV).
-  Notation fzrL := (fzrL FV).
-  Notation fzrOps := (fzrOps FV).
-  Notation fzrC := (fzrC FV).
-  Notation fzrArms := (fzrArms FV).
-  Notation sim_at := (sim_at n0 cur0 FV resl).
-  Notation pre := (pre n0 cur0 FV resl).
+  Notation vrel := (vrel n0 cur0 FV resl mutl).
+  Notation vrels := (vrels n0 cur0 FV resl mutl).
+  Notation srel := (srel n0 cur0 FV resl mutl).
+  Notation agree := (agree n0 cur0 FV resl mutl).
+  Notation post := (post n0 cur0 FV resl mutl).
+  Notation fzr := (fzr FV mutl).
+  Notation fzrL := (fzrL FV mutl).
+  Notation fzrOps := (fzrOps FV mutl).
+  Notation fzrC := (fzrC FV mutl).
+  Notation fzrArms := (fzrArms FV mutl).
+  Notation sim_at := (sim_at n0 cur0 FV resl mutl).
+  Notation pre := (pre n0 cur0 FV resl mutl).
 
   Hypothesis Hcur0 : cur0 < n0.
   Implicit Types P D : name -> Prop.
@@ -160,7 +161,7 @@ Section Lists.
         cbn [chain_ops].
       - destruct PR. apply chain_finish_sim; auto.
       - unfold ops_decl in *. cbn [flat_map fst snd] in *.
-        assert (N0 := srel_n0 _ _ (pr_srel _ _ _ _ _ _ _ _ _ _ _ PR)).
+        assert (N0 := srel_n0 _ _ (pr_srel _ _ _ _ _ _ _ _ _ _ _ _ PR)).
         eapply post_bind with (D1 := ddecl o) (D2 := ddecl d ++ ops_decl r).
         + eapply use_rec; eauto. intros x Hx. apply I. apply in_or_app. left. apply in_or_app; auto.
         + intros x Hx. apply in_or_app. left. apply in_or_app; auto.
@@ -168,9 +169,9 @@ Section Lists.
         + intros st1 st1' opv opv' E K S1 Ag1 Rv.
           assert (PR1 := pre_after _ _ _ o _ _ _ _ _ _ PR E K S1 Ag1).
           assert (N1 := srel_n0 _ _ S1).
-          rewrite <- (vrel_is_func _ _ _ _ _ _ _ Rv). destruct (is_func opv); cbn [negb].
+          rewrite <- (vrel_is_func _ _ _ _ _ _ _ _ Rv). destruct (is_func opv); cbn [negb].
           2:{ eapply post_weaken; [apply post_throw_err; auto|intros ? []]. }
-          rewrite <- (vrel_is_cmp _ _ _ _ _ _ _ Rv). destruct (is_cmp opv).
+          rewrite <- (vrel_is_cmp _ _ _ _ _ _ _ _ Rv). destruct (is_cmp opv).
           { eapply post_weaken; [apply post_unsupp; auto|intros ? []]. }
           eapply post_bind with (D1 := ddecl d) (D2 := ops_decl r).
           * eapply use_rec; eauto. intros x Hx. apply I. apply in_or_app. left. apply in_or_app; auto.
@@ -179,7 +180,7 @@ Section Lists.
           * intros st2 st2' v v' E2 K2 S2 Ag2 Rv2.
             assert (PR2 := pre_after _ _ _ d _ _ _ _ _ _ PR1 E2 K2 S2 Ag2).
             assert (N2 := srel_n0 _ _ S2).
-            rewrite <- (vrel_func_prec _ _ _ _ _ _ _ Rv).
+            rewrite <- (vrel_func_prec _ _ _ _ _ _ _ _ Rv).
             eapply post_bind with (D1 := []) (D2 := ops_decl r).
             -- apply chain_reduce_sim; auto.
                ++ eapply pend_rel_mono; [eapply pend_rel_mono|..]; eauto.
@@ -211,10 +212,10 @@ Section Lists.
       intros P D B bud bud' x k k' l l' HK Hx. revert l'.
       induction l as [|v l IH]; intros l' st st' cur Dn acc acc' PR Rl Ra; inversion Rl; subst; cbn [for_each].
       - destruct PR. apply post_ret; auto.
-      - assert (N0 := srel_n0 _ _ (pr_srel _ _ _ _ _ _ _ _ _ _ _ PR)).
+      - assert (N0 := srel_n0 _ _ (pr_srel _ _ _ _ _ _ _ _ _ _ _ _ PR)).
         destruct PR as [S Ag CI CH LC BU PP].
-        pose proof (enter_frame n0 cur0 FV resl Hcur0 P D B st st' cur bud bud' S Ag CI CH LC PP) as PRf.
-        destruct (srel_push n0 cur0 FV resl Hcur0 st st' cur bud bud' S LC) as (_ & F1 & F2).
+        pose proof (enter_frame n0 cur0 FV resl mutl Hcur0 P D B st st' cur bud bud' S Ag CI CH LC PP) as PRf.
+        destruct (srel_push n0 cur0 FV resl mutl Hcur0 st st' cur bud bud' S LC) as (_ & F1 & F2).
         destruct (push_frame st cur bud) as [st1 fr] eqn:P1.
         destruct (push_frame st' cur bud') as [st1' fr'] eqn:P2.
         cbn [fst snd] in *. subst fr fr'.
@@ -229,7 +230,7 @@ Section Lists.
         { eapply post_fresh with (fr := length (frames st)) (Dn := bud); eauto.
           destruct PRf as [S1 Ag1 CI1 CH1 LC1 BU1 PP1].
           eapply post_bind with (D1 := [x]) (D2 := bud).
-          - apply (declare_all_sim n0 cur0 FV resl Hcur0 [(x, v)] [(x, v')]); auto.
+          - apply (declare_all_sim n0 cur0 FV resl mutl Hcur0 [(x, v)] [(x, v')]); auto.
             + constructor; [|constructor]. split; auto. cbn. eapply vrel_mono; eauto.
             + intros G y [<-|[]]. apply BU1; auto.
           - intros y [<-|[]]. auto.
@@ -272,7 +273,7 @@ Section Lists.
       induction 1 as [|P D B k z e e' r r' He Hr IH]; intros cb cb' HC HB HD; cbn [eval_for bndC] in *.
       - exact HC.
       - intros st st' fr acc acc' PR Ra.
-        assert (N0 := srel_n0 _ _ (pr_srel _ _ _ _ _ _ _ _ _ _ _ PR)).
+        assert (N0 := srel_n0 _ _ (pr_srel _ _ _ _ _ _ _ _ _ _ _ _ PR)).
         assert (IB : incl (ddecl e) bud).
         { intros x Hx. apply (HB (k, z, e)); [left; auto|]. apply in_or_app. right. auto. }
         eapply post_weaken with (D1 := ddecl e ++ bud); [|intros x Hx; apply in_app_or in Hx; destruct Hx; auto].
@@ -300,7 +301,7 @@ Section Lists.
             -- apply cont_ok_DU; auto; eapply IH; eauto.
             -- constructor; auto. constructor.
           * (* if e *)
-            rewrite <- (vrel_truthy _ _ _ _ _ _ _ Rv). destruct (truthy v).
+            rewrite <- (vrel_truthy _ _ _ _ _ _ _ _ Rv). destruct (truthy v).
             -- eapply IH; eauto.
             -- eapply post_weaken; [apply post_ret; destruct PR1; auto|intros ? []].
     Qed.
@@ -308,7 +309,7 @@ Section Lists.
     (* ---------------------------------------------------------- switch arms *)
     Lemma pat_match_rel : forall fs p v v', vrel fs v v' ->
       match pat_match p v, pat_match p v' with
-      | TOk bs, TOk bs' => vars_rel n0 cur0 FV resl fs bs bs' /\ map fst bs = pat_names p
+      | TOk bs, TOk bs' => binds_rel n0 cur0 FV resl mutl fs bs bs' /\ map fst bs = pat_names p
       | TThrow, TThrow => True
       | TUnsupp, TUnsupp => True
       | _, _ => False
@@ -327,10 +328,10 @@ Section Lists.
     Proof.
       induction 1 as [|P D B p b b' r r' Hb Hr IH]; intros st st' cur Dn v v' PR Rv; cbn [eval_arms].
       - destruct PR. apply post_throw_err; auto.
-      - assert (N0 := srel_n0 _ _ (pr_srel _ _ _ _ _ _ _ _ _ _ _ PR)).
+      - assert (N0 := srel_n0 _ _ (pr_srel _ _ _ _ _ _ _ _ _ _ _ _ PR)).
         pose proof PR as PR0. destruct PR as [S Ag CI CH LC BU PP].
-        pose proof (enter_frame n0 cur0 FV resl Hcur0 P D B st st' cur (arm_budget p b) (arm_budget p b') S Ag CI CH LC PP) as PRf.
-        destruct (srel_push n0 cur0 FV resl Hcur0 st st' cur (arm_budget p b) (arm_budget p b') S LC) as (_ & F1 & F2).
+        pose proof (enter_frame n0 cur0 FV resl mutl Hcur0 P D B st st' cur (arm_budget p b) (arm_budget p b') S Ag CI CH LC PP) as PRf.
+        destruct (srel_push n0 cur0 FV resl mutl Hcur0 st st' cur (arm_budget p b) (arm_budget p b') S LC) as (_ & F1 & F2).
         destruct (push_frame st cur (arm_budget p b)) as [st1 fr] eqn:P1.
         destruct (push_frame st' cur (arm_budget p b')) as [st1' fr'] eqn:P2.
         cbn [fst snd] in *. subst fr fr'.
@@ -345,7 +346,7 @@ Section Lists.
           eapply post_fresh with (fr := length (frames st)) (Dn := arm_budget p b); eauto.
           destruct PRf as [S1 Ag1 CI1 CH1 LC1 BU1 PP1].
           eapply post_bind with (D1 := map fst bs) (D2 := ddecl b).
-          * apply (declare_all_sim n0 cur0 FV resl Hcur0); auto.
+          * apply (declare_all_sim n0 cur0 FV resl mutl Hcur0); auto.
             intros G. rewrite PM2. intros y Hy. apply BU1; auto. unfold arm_budget. apply in_or_app; auto.
           * rewrite PM2. unfold arm_budget. intros y Hy. apply in_or_app; auto.
           * unfold arm_budget. intros y Hy. apply in_or_app; auto.
